@@ -203,6 +203,26 @@ def ensemble_check(rng, tier):
     got = [p for p in plats if p is not None]
     if got and not (0.7 * true < float(np.mean(got)) < 1.5 * true):
         bad.append(("uncorrelated samples: reported plateau error is statistically valid", {"mean_plateau": float(np.mean(got)), "true": true}))
+    # autocorrelated samples: AR(1) with correlation 0.9 (integrated autocorrelation factor sqrt(19) = 4.36 on the error): the per-size
+    # estimates must GROW with the block size (blocks are runs of consecutive samples) and approach the true error of the mean
+    phi, n2 = 0.9, 4000
+    true2 = math.sqrt((1 + phi) / (1 - phi)) / math.sqrt(n2)      # unit stationary variance
+    r1, r50, r100 = [], [], []
+    for _ in range(8 if tier == "quick" else 40):
+        x = np.empty(n2)
+        x[0] = g.normal()
+        z = g.normal(0.0, math.sqrt(1 - phi * phi), n2)
+        for t in range(1, n2):
+            x[t] = phi * x[t - 1] + z[t]
+        m, p, per = call_blocking([1.0] * n2, list(x), 0)
+        if 1 in per and 50 in per and 100 in per:
+            r1.append(per[1][2]); r50.append(per[50][2]); r100.append(per[100][2])
+    if r1:
+        a1, a50, a100 = float(np.mean(r1)), float(np.mean(r50)), float(np.mean(r100))
+        if not (a50 > 2.5 * a1 and a100 > 2.5 * a1 and 0.6 * true2 < a100 < 1.4 * true2):
+            bad.append(("autocorrelated samples: per-block-size estimates grow towards the true error",
+                        {"correlation": phi, "n": n2, "mean_error_size_1": a1, "mean_error_size_50": a50, "mean_error_size_100": a100, "true_error": true2,
+                         "numpy_generator_seed_source": "harness rng stream"}))
     return bad
 
 
